@@ -346,6 +346,26 @@ class Intervals:
         if last["k"] == "field" and len(pl["proj"]) == 2 and pl["proj"][0]["k"] == "downcast" and pl["proj"][0]["variant"] == "Continue":
             # `(_x as Continue).0` with _x = Try::branch(result of a local call g): the Ok payload of g
             ds = fn.whole_defs(pl["local"])
+            live = [d for d in ds if d[2] in fn.cfg()]
+            if len(live) > 1 or (len(live) == 1 and live[0][0] == "call" and callee_of(live[0][1]).endswith("::branch") and op_place(live[0][1]["args"][0]) is not None
+                                 and len(fn.whole_defs(op_place(live[0][1]["args"][0])["local"])) > 1):
+                # an inlined helper: one Try::branch per return site; the payload is the join over the Ok sites
+                out, first = None, True
+                for d in live:
+                    if d[0] != "call" or not callee_of(d[1]).endswith("::branch"):
+                        out, first = None, True
+                        break
+                    p0 = op_place(d[1]["args"][0])
+                    v = self._ok_payload_local(fn, p0["local"], depth + 1, seen) if p0 is not None and not p0["proj"] else None
+                    if v is None:
+                        out, first = None, True
+                        break
+                    if v == "none":
+                        continue
+                    out = v if first else join(out, v)
+                    first = False
+                if not first:
+                    return meet(ty_range(last["ty"]), out) if ty_range(last["ty"]) else out
             if len(ds) == 1 and ds[0][0] == "call" and callee_of(ds[0][1]).endswith("::branch"):
                 p = op_place(ds[0][1]["args"][0])
                 for _ in range(4):
@@ -395,6 +415,51 @@ class Intervals:
             inner = {"local": pl["local"], "proj": pl["proj"][:-1]}
             return self.place(fn, inner, block, depth + 1, seen, refine=False)
         return None
+
+    def _ok_payload_local(self, fn, n, depth, seen, hops=0):
+        """interval of the Ok / Some payload a Result-typed local can hold ("none" when it is never Ok)"""
+        if hops > 6 or depth > 24:
+            return None
+        ds = fn.whole_defs(n)
+        if not ds or len(fn.defs().get(n, [])) != len(ds):
+            return None
+        out, first = None, True
+        for kind, payload, bi, si, place in ds:
+            if bi not in fn.cfg():
+                continue
+            v = None
+            if kind == "stmt":
+                rv = payload
+                if rv["k"] == "aggregate" and rv["kind"].get("agg") == "adt" and (rv["kind"]["adt"].endswith("result::Result") or rv["kind"]["adt"].endswith("option::Option")):
+                    if rv["kind"]["variant"] in ("Err", "None"):
+                        continue
+                    v = self.operand(fn, rv["ops"][0], bi, depth + 1, seen)
+                elif rv["k"] == "use" and op_place(rv["op"]) is not None and not op_place(rv["op"])["proj"]:
+                    v = self._ok_payload_local(fn, op_place(rv["op"])["local"], depth + 1, seen, hops + 1)
+                    if v == "none":
+                        continue
+                else:
+                    return None
+            else:
+                c = callee_of(payload)
+                lastseg = c.rsplit("::", 1)[-1]
+                if c.endswith("::from_residual") or self.prog.is_always_err(c):
+                    continue
+                if lastseg in CONVERTERS and payload["args"] and op_place(payload["args"][0]) is not None and not op_place(payload["args"][0])["proj"]:
+                    v = self._ok_payload_local(fn, op_place(payload["args"][0])["local"], depth + 1, seen, hops + 1)
+                    if v == "none":
+                        continue
+                else:
+                    g = self.prog.fns.get(c)
+                    if g is not None and depth < 8:
+                        v = self.ok_payload_interval(g, depth + 1)
+                    elif g is None and lastseg in DEVICE_POSITION_CALLS and "Seek" in c:
+                        v = (0, (1 << 63) - 1)
+            if v is None:
+                return None
+            out = v if first else join(out, v)
+            first = False
+        return "none" if first else out
 
     def _add_min_cap(self, fn, rv):
         """x + min(_, C - x) <= C  (C constant)"""
